@@ -38,7 +38,33 @@ NAME_SETS = (
 )
 MISMATCH_SHAPES = ("none", "assert", "expect", "expect+assert")
 FIXTURE_SHAPES = ("none", "ok@setUp", "fail@test", "fail+badcleanup@test")
-KINDS = (pg.RET, pg.FAIL, pg.ERROR, pg.SKIP, pg.XFAIL, pg.UXSUCCESS, pg.MULTI, pg.KBI)
+MULTI_NESTED = "multi_nested"
+pg.FLATTEN[MULTI_NESTED] = (pg.ERROR, pg.ERROR, pg.FAIL)
+KINDS = (pg.RET, pg.FAIL, pg.ERROR, pg.SKIP, pg.XFAIL, pg.UXSUCCESS, pg.MULTI, MULTI_NESTED, pg.KBI)
+_prev_perform = pg.perform
+
+
+def _perform(case, ctx, stage, kind):
+    if kind == MULTI_NESTED:
+        # MultipleExceptions with a MultipleExceptions among its constituents (three user exceptions)
+        import sys
+
+        from testtools.runtest import MultipleExceptions
+
+        marker = "%s!%s" % (stage, kind)
+        ctx.raised.append((stage, kind, marker))
+        ctx.xlog.append(("raise", stage, kind))
+
+        def info(exc):
+            try:
+                raise exc
+            except BaseException:
+                return sys.exc_info()
+
+        inner = info(MultipleExceptions(info(pg.VerifError(marker + "/n1")), info(AssertionError(marker + "/n2"))))
+        raise MultipleExceptions(info(pg.VerifError(marker + "/e")), inner)
+    return _prev_perform(case, ctx, stage, kind)
+
 
 
 def payload_content(kind, marker, vol):
@@ -123,10 +149,13 @@ def do_mutate(case, ctx, site, action):
 
 def _mk_details(ctx, tag, names, site):
     d = {}
+    vol = ctx.extra.setdefault("vol", {})
     for i, n in enumerate(names):
         marker = "<<%s:%s@%s>>" % (tag, n, site)
         ck = ("one", "multi", "binary")[i % 3]
-        c, data = payload_content(ck, marker, {})
+        if tag == "E" and i == 0:
+            ck = "volatile"  # a mismatch detail whose bytes keep changing until the outcome is reported
+        c, data = payload_content(ck, marker, vol)
         d[n] = c
         note_payload(ctx, marker, c.content_type, data, site)
     return d
@@ -141,7 +170,7 @@ def do_assert(case, ctx, site, action):
 
 
 def do_expect(case, ctx, site, action):
-    d = _mk_details(ctx, "E", ("foo", "Failed expectation"), site)
+    d = _mk_details(ctx, "E", ("foo", "Failed expectation", "traceback"), site)
     case.expectThat(1, DetailMatcher(d), "%s!expectThat" % site)
 
 
@@ -216,6 +245,7 @@ def all_configs():
 
 
 def execute(cfg, chooser):
+    pg.perform = _perform
     config = build_config(*cfg)
     ctx = pg.Ctx(config, chooser)
     shared = []
@@ -277,6 +307,8 @@ def check_execution(cfg, ctx, config, shared, how):
             continue
         if kind == pg.MULTI:
             exc_markers.extend([marker + "/e", marker + "/f"])
+        elif kind == MULTI_NESTED:
+            exc_markers.extend([marker + "/e", marker + "/n1", marker + "/n2"])
         else:
             exc_markers.append(marker)
     exc_markers.extend(ctx.extra.get("user_exc", []))
@@ -290,6 +322,18 @@ def check_execution(cfg, ctx, config, shared, how):
             if config.decorator == "xfail_decorator" and m.startswith("test!"):
                 clause = "traceback-behind-expectedFailure-decorator"
             problems.append((clause, "exception %s has %d traceback details (%r); delivered %r" % (m, len(hits), hits, {k: v[0] for k, v in details.items()})))
+    # distinct user exceptions have distinct traceback details (a MultipleExceptions that is reported
+    # as ONE traceback quoting its constituents does not count as one traceback per constituent)
+    owners = {}
+    for m in exc_markers:
+        mb = m.encode("utf8")
+        for k, (ct, b) in details.items():
+            if ct == tb_type and mb in b:
+                owners.setdefault(k, set()).add(m)
+    for k, ms in owners.items():
+        plain = {m for m in ms if not m.endswith("!fixture") and not (config.decorator == "xfail_decorator" and m.startswith("test!"))}
+        if len(plain) > 1:
+            problems.append(("traceback", "traceback detail %r stands for several user exceptions at once: %r" % (k, sorted(plain))))
     # (3) skip reason
     if outcome == "addSkip":
         skips = [marker for stage, kind, marker in ctx.raised if kind == pg.SKIP]
@@ -310,9 +354,16 @@ def check_execution(cfg, ctx, config, shared, how):
                 continue
             if kind == pg.MULTI:
                 flat.extend([marker + "/e", marker + "/f"])
+            elif kind == MULTI_NESTED:
+                flat.extend([marker + "/e", marker + "/n1", marker + "/n2"])
             else:
                 flat.append(marker)
         flat.extend(ctx.extra.get("user_exc", []))
+        for e in hcalls:
+            # (under @expectedFailure whatever the body raises is wrapped whole into one expected failure)
+            covered = [m for m in flat if m in e[2] and not m.endswith("!fixture") and not (config.decorator == "xfail_decorator" and m.startswith("test!"))]
+            if len(covered) > 1:
+                problems.append(("handler-count", "one handler call stands for several user exceptions %r (a MultipleExceptions passed on whole?)" % (covered,)))
         for m in flat:
             for i in range(nh):
                 n = sum(1 for e in hcalls if e[1] == i and m in e[2])
